@@ -1251,6 +1251,6 @@ def run(ctx):
             nr = Rule(fn.__name__.replace('rule_', 'C30-').upper(), 'NOT EVALUATED in this run (see info)', floor=0)
             nr.info('not evaluated because C30-GEN/HASH/CMP already report violations: %s' % e)
             extra.append(nr)
-    # sC30.rule_mutable_complete(ctx) is NOT registered: pending finding (FINDING_2: a bytearray default is accepted by the unmodified tree)
-    # sC30.rule_postinit_inherited(model, info) is NOT registered: pending finding (FINDING_4: a __post_init__ inherited from a cdef base class is not called)
-    return first + [body] + extra + [sC30.rule_fields(ctx), sC30.rule_frozen(ctx), rule_V1(ctx, model)]
+    # sC30.rule_mutable_complete(ctx): armed after the repair 52deae914 (FINDING_2: a bytearray default is accepted by the unmodified tree)
+    # sC30.rule_postinit_inherited(model, info): armed after the repair f5dc1bf46 (FINDING_4: a __post_init__ inherited from a cdef base class is not called)
+    return first + [body] + extra + [sC30.rule_fields(ctx), sC30.rule_frozen(ctx), rule_V1(ctx, model), sC30.rule_mutable_complete(ctx), sC30.rule_postinit_inherited(model, info)]
